@@ -67,6 +67,25 @@ class Expr2Mixin:
             raise Unsupported("symbolic tuple index")
         if isinstance(base, VMap):
             return self.map_get(st, base, idx)
+        if isinstance(base, VRecord):
+            if not isinstance(idx, VStr) or base.get(idx.s) is None:
+                raise Unsupported("record (dict with fixed keys) read by something else than one of its constant keys")
+            v = base.get(idx.s)
+            return st.new_list(v) if isinstance(v, VList) else v
+        if isinstance(base, (VListRef, VList)) and isinstance(idx, (VListRef, VList)):
+            # numpy fancy indexing a[indices]: ASSUMED element-wise gather; every index must be in range
+            l, ix = st.lst(base), st.lst(idx)
+            if ix.elem is not INT:
+                raise Unsupported("array indexed by a non-integer array")
+            self.assumptions.add('numpy fancy indexing a[idx]: the elements a[idx[0]], a[idx[1]], ... (every index in range)')
+            k = z3.Int(fresh_name('gk'))
+            i = ix.at(k).t
+            self.check(st, z3.ForAll([k], z3.Implies(z3.And(0 <= k, k < ix.n), z3.And(0 <= i, i < l.n))), f"safety[{self.site(st, 'sub')}]::gather_indices_in_range", 'safety')
+            r = self.fresh_list(l.elem, 'gather', n=ix.n)
+            eqs = [z3.Select(ra, k) == c for ra, c in zip(r.arrs, l.at(i).cols())]
+            st.assume(z3.ForAll([k], z3.Implies(z3.And(0 <= k, k < ix.n), z3.And(*eqs)), patterns=[z3.Select(r.arrs[0], k)]))
+            st.assume(*self.wf(r, st))
+            return st.new_list(r)
         if not isinstance(base, (VListRef, VList)):
             raise Unsupported(f"subscript of {type(base).__name__}")
         l = st.lst(base)
@@ -536,6 +555,9 @@ class Expr2Mixin:
             self.check(st, z3.BoolVal(False), f"safety[{self.site(st, 'attr')}]::attribute_of_None::{attr}", 'safety')
             return
         if isinstance(base, VListRef):
+            if attr == 'size':
+                yield st, VInt(st.lists[base.lid].n)          # numpy array attribute (arrays are modelled as lists)
+                return
             yield st, VFunc('listmeth', (base, attr))
             return
         if isinstance(base, VEnum):
